@@ -206,16 +206,41 @@ inductive Op
   | setSchedules (ss : List Schedule)
 deriving Repr, DecidableEq
 
+def Which.idx : Which → Nat
+  | .state => 0 | .povm => 1 | .gate => 2 | .mprocess => 3
+
+/-- an `objdict` entry of a setter: 0..3 = the experiment's own states / povms / gates / mprocesses list, otherwise the
+new value (generated table `QGen.C20.setterDicts`) -/
+def Lists.pick (L : Lists) (v : ObjList) (code : Nat) : ObjList :=
+  if code = 0 then L.state else if code = 1 then L.povm else if code = 2 then L.gate
+  else if code = 3 then L.mprocess else v
+
+/-- the `objdict` the setter for `w` validates against (table look-ups default to "own list of that key": the pin
+theorem `setters_eq` shows the generated tables are complete) -/
+def setterLists (L : Lists) (w : Which) (v : ObjList) : Lists :=
+  let d := QGen.C20.setterDicts.getD w.idx [0, 1, 2, 3]
+  { state := L.pick v (d.getD 0 0), povm := L.pick v (d.getD 1 1), gate := L.pick v (d.getD 2 2),
+    mprocess := L.pick v (d.getD 3 3) }
+
+/-- `self._<list> = value` of the setter for `w` (which own list is assigned: generated `QGen.C20.setterAssigns`) -/
+def setterAssign (L : Lists) (w : Which) (v : ObjList) : Lists :=
+  let c := QGen.C20.setterAssigns.getD w.idx w.idx
+  if c = 0 then { L with state := v } else if c = 1 then { L with povm := v }
+  else if c = 2 then { L with gate := v } else { L with mprocess := v }
+
 /-- one setter call: validate against the would-be state, assign only on success -/
 def step (T : Tables) (st : ExpState) : Op → Except Err ExpState
   | .setList w v =>
-    match validateSchedules T (st.lists.set w v) st.schedules with
+    match validateSchedules T (setterLists st.lists w v) st.schedules with
     | .error e => .error e
-    | .ok () => .ok { st with lists := st.lists.set w v }
+    | .ok () => .ok { st with lists := setterAssign st.lists w v }
   | .setSchedules ss =>
     match validateSchedules T st.lists ss with
     | .error e => .error e
     | .ok () => .ok { st with schedules := ss }
+
+/-- `Experiment.copy()`: a new Experiment is constructed from (shallow copies of) the lists and schedules, without seed -/
+def copyExp (T : Tables) (st : ExpState) : Except Err ExpState := construct T st.lists st.schedules
 
 /-- a history of setter calls; a failing call leaves the state unchanged (the exception is caught by the caller).
 Returns the per-call results and the final state. -/
@@ -542,6 +567,15 @@ def handle (args : List String) : Option String :=
         let (rs, f) := runOps tables st ops
         let rtxt := "/".intercalate (rs.map fun | none => "ok" | some e => e.toString)
         some s!"{rtxt} # {showLists f.lists} # {showSchedules f.schedules}"
+  | ["copy", a, b, c, d, ss] => do
+      let L ← parseLists? a b c d
+      let ss ← parseSchedules? ss
+      match construct tables L ss with
+      | .error e => some s!"ctor {e.toString}"
+      | .ok st =>
+        match copyExp tables st with
+        | .error e => some e.toString
+        | .ok f => some s!"ok # {showLists f.lists} # {showSchedules f.schedules}"
   | ["calc", a, b, c, d, ss, idx] => do
       let L ← parseLists? a b c d
       let ss ← parseSchedules? ss
